@@ -139,8 +139,8 @@ def variantUnit (cfg : Cfg) : RustEnumVariant → Bool
   | .tuple _ _ ty => unitIn cfg ty
   | _ => false
 
-theorem algebraicCases_st (cfg : Cfg) (e : RustEnum) : ∀ (vs : List RustEnumVariant) (st : St) r (st' : St),
-    algebraicCases cfg e vs st = .ok (r, st') → st' = (st || vs.any (variantUnit cfg))
+theorem algebraicCases_st {U : UnicodeOps} (cfg : Cfg) (e : RustEnum) : ∀ (vs : List RustEnumVariant) (st : St) r (st' : St),
+    algebraicCases U cfg e vs st = .ok (r, st') → st' = (st || vs.any (variantUnit cfg))
   | [], st, r, st', h => by
     simp only [algebraicCases, Outcome.ok.injEq, Prod.mk.injEq] at h; simp [h.2]
   | v :: vs, st, r, st', h => by
